@@ -282,6 +282,9 @@ func H_C02_structural() {
 		"{{if a}}" + f + "{{end}}{{end}}",
 		f + "x{{extends \"/x\"}}",
 		"x" + f + "{{import \"/x\"}}",
+		"{{extends \"/x\"}}x" + f + "{{import \"/x\"}}",
+		"{{extends \"/x\"}}" + f + "x{{extends \"/x\"}}",
+		"{{import \"/x\"}}x" + f + "{{extends \"/x\"}}",
 		"{{if a}}" + f,
 		"{{if a}}{{range b}}" + f + "{{end}}",
 		"{{block b()}}" + f,
